@@ -278,6 +278,19 @@ def r16_2(chk, sdf):
     for q, table in (("parse_atom_lines", "_ATOM_FIELDS"), ("parse_bond_lines", "_BOND_FIELDS"), ("parse_counts_line", "_COUNTS_FIELDS")):
         ev = sdf.ev(q)
         chk.saw(SDF, q)
+        # parsed text fields keep their length: a numpy array allocated with dtype=str (one character per item) or 'U1' / 'S1' truncates
+        # 'Cl' to 'C' on assignment without an error
+        narrow = []
+        for node in ast.walk(sdf.func(q)):
+            if isinstance(node, ast.Call) and isinstance(node.func, ast.Attribute) and node.func.attr in ("empty", "zeros", "full", "empty_like", "zeros_like", "ndarray", "chararray"):
+                for k in node.keywords:
+                    if k.arg == "dtype":
+                        for sub in ast.walk(k.value):
+                            if (isinstance(sub, ast.Name) and sub.id in ("str", "bytes")) or (isinstance(sub, ast.Attribute) and sub.attr in ("str_", "bytes_", "unicode_")) \
+                                    or (isinstance(sub, ast.Constant) and isinstance(sub.value, str) and sub.value.lstrip("<>=|")[:1] in ("U", "S", "a")):
+                                narrow.append(ast.unparse(node)[:100])
+        chk.ob("R16.2", SDF, q, "text fields are collected at full length (no preallocated fixed-width string array: dtype=str is one character wide)",
+               not narrow, fingerprint=f"full-width:{q}", expected="python lists (or dtype=object) for text columns", found=narrow[:1])
         ok_slice = ok_adv = False
         bad_arg = []
         for e in ev.events:
